@@ -35,6 +35,7 @@ LINTERS = (
     ("cqs", "cqs", (("cqs.py",),)),
 )
 _P = {}
+_TIER = {"t": "quick"}
 
 
 def _proj():
@@ -110,8 +111,9 @@ def h_monotone(ctx):
     section, key, names, prefix, positive = ctx.pick("threshold", THRESHOLDS)
     ctx.note("threshold", section + "." + key)
     spelled = section if ctx.pick("spelling", ("hyphen", "underscore")) == "hyphen" else section.replace("-", "_")
-    a = ctx.int("a", -1, 9)
-    b = ctx.int("b", -1, 9)
+    hi = 9 if _TIER["t"] == "quick" else 16
+    a = ctx.int("a", -1, hi)
+    b = ctx.int("b", -1, hi)
     ctx.assume(a <= b)
 
     def run(val):
@@ -382,6 +384,7 @@ ASSUMPTIONS = (
 
 
 def obligations(tier):
+    _TIER["t"] = tier
     obs = [
         Ob(name="K1-enabled-flag-every-linter", engine="pathex", harness=h_enabled,
            functions=["config_parser._normalize_config_keys", "Orchestrator.__init__/lint_files/lint_file", "every rule's check()/finalize() and its _load_config",
@@ -390,7 +393,7 @@ def obligations(tier):
            timeout=600, workers=14, must_cover=("silent", "reporting")),
         Ob(name="K2-threshold-monotone-and-validated", engine="pathex", harness=h_monotone,
            functions=["the threshold linters' Config.from_dict/__post_init__", "NestingDepthRule/SRPRule/MagicNumberRule/DRYRule/MethodPropertyRule/CQSRule/CollectionPipelineRule .check"],
-           bounds="two thresholds a <= b in [-1, 9] (symbolic where the code only compares, enumerated by forking where it needs a machine integer); 10 (section, key) pairs x 2 spellings",
+           bounds="two thresholds a <= b in [-1, 9] (thorough: [-1, 16]) (symbolic where the code only compares, enumerated by forking where it needs a machine integer); 10 (section, key) pairs x 2 spellings",
            timeout=900, workers=14, must_cover=("rejected", "fires")),
         Ob(name="K2b-cli-threshold-overrides", engine="pathex", harness=h_cli_override,
            functions=["cli.linters.structure_quality._apply_nesting_config_override/_apply_nesting_to_languages/_apply_srp_config_override",
